@@ -30,6 +30,7 @@ func runC01(a *A) {
 		}
 	})
 	a.Rule("shape/slots-tile", 3, func() { a.tumblingSlotShapes("TumblingWindow", "size", "size") })
+	a.Rule("shape/epoch-aligned", 1, func() { a.ruleEpochAligned() })
 	a.Rule("shape/buffer-arrival-order", 4, func() { a.ruleBufferArrivalOrder(a.Named("window", "TumblingWindow")) })
 	a.Rule("shape/row-eviction-ignores-lateness", 7, func() { a.ruleRowEvictionIgnoresLateness(a.Named("window", "TumblingWindow")) })
 	a.Rule("locks/clock-read-under-lock", 1, func() { a.ruleClockReadUnderLock(a.Named("window", "TumblingWindow")) })
@@ -149,5 +150,71 @@ func (a *A) tumblingSlotShapes(typ, sizeF, alignF string) {
 	}
 	if !found {
 		a.Und(fname(add)+"#first-slot", add.Pos(), "Add does not call createSlotFromStart")
+	}
+}
+
+// ruleEpochAligned: intervals are [k*size, (k+1)*size) counted from the Unix epoch. The value
+// alignWindowStart returns must therefore be computed from the timestamp's epoch offset
+// (Unix / UnixMilli / UnixMicro / UnixNano) and must not come out of time.Time.Truncate or Round:
+// those round to multiples of d since Go's zero time (year 1), which is 62135596800 s before the
+// epoch, so for every size that does not divide that number (7s, 11s, 1100ms, a week) all
+// boundaries are shifted by a constant and rows land in the wrong intervals.
+func (a *A) ruleEpochAligned() {
+	fn := a.Func("window", "alignWindowStart")
+	construct := fname(fn) + "#epoch-aligned"
+	epoch, zeroBased := false, ""
+	seen := map[ssa.Value]bool{}
+	var rec func(v ssa.Value, d int)
+	rec = func(v ssa.Value, d int) {
+		if v == nil || seen[v] || d > 40 {
+			return
+		}
+		seen[v] = true
+		switch x := v.(type) {
+		case *ssa.Call:
+			switch calleeFull(&x.Call) {
+			case "(time.Time).Truncate", "(time.Time).Round":
+				zeroBased = calleeFull(&x.Call)
+			case "(time.Time).Unix", "(time.Time).UnixNano", "(time.Time).UnixMilli", "(time.Time).UnixMicro":
+				epoch = true
+			}
+			for _, arg := range x.Call.Args {
+				rec(arg, d+1)
+			}
+			if cal := x.Call.StaticCallee(); cal != nil && a.fnInModule(cal) && cal.Blocks != nil {
+				for _, b := range cal.Blocks {
+					if ret, ok := b.Instrs[len(b.Instrs)-1].(*ssa.Return); ok {
+						for _, r := range ret.Results {
+							rec(r, d+1)
+						}
+					}
+				}
+			}
+		case *ssa.Phi:
+			for _, e := range x.Edges {
+				rec(e, d+1)
+			}
+		case ssa.Instruction:
+			for _, op := range x.Operands(nil) {
+				if *op != nil {
+					rec(*op, d+1)
+				}
+			}
+		}
+	}
+	for _, b := range fn.Blocks {
+		if ret, ok := b.Instrs[len(b.Instrs)-1].(*ssa.Return); ok {
+			for _, r := range ret.Results {
+				rec(r, 0)
+			}
+		}
+	}
+	switch {
+	case zeroBased != "":
+		a.Bad(construct, fn.Pos(), "the aligned start is computed with %s, which rounds to multiples counted from Go's zero time, not from the Unix epoch: for window sizes that do not divide 62135596800 s every interval boundary is shifted and rows are reported in intervals that are not [k*size,(k+1)*size)", zeroBased)
+	case !epoch:
+		a.Und(construct, fn.Pos(), "the aligned start is not derived from the timestamp's Unix epoch offset (Unix/UnixMilli/UnixMicro/UnixNano)")
+	default:
+		a.Ok(construct, fn.Pos(), "the aligned start is computed from the timestamp's offset from the Unix epoch")
 	}
 }
